@@ -26,7 +26,8 @@ ASSUMPTIONS = [
     "nondeterminism sources sampled: PYTHONHASHSEED (numeric values and 'random'), process identity / object "
     "addresses (fresh interpreters), repeated computation in one process on freshly built objects, what ran earlier "
     "in the process (per-interpreter visiting order), log verbosity (every third interpreter at LOGLEVEL=DEBUG), the "
-    "wall clock (interpreters live 0, 401, 802 or 1203 days ahead; monotonic clocks untouched)",
+    "wall clock (interpreters live 0, 401, 802 or 1203 days ahead; monotonic clocks untouched), the interpreter's "
+    "optimisation flag (every fourth interpreter runs with PYTHONOPTIMIZE=1)",
     "corpus = every non-empty .cif/.pdb/.cif.gz under /repo/tests (quick tier skips the slow 1gid.cif.gz), each "
     "with find_gaps in {False, True}; generated secondary structures are seeded and biased towards several "
     "independent knotted groups so that the all-dot-brackets list has >= 2 members",
@@ -230,6 +231,9 @@ def launch(jobs, workers, timeout, tmp):
             env["PYTHONHASHSEED"] = hs
             env["VERIF_C14_LOGLEVEL"] = loglevel_of(hs)
             env["VERIF_C14_CLOCK_SKEW_DAYS"] = str(clock_skew_of(hs))
+            env.pop("PYTHONOPTIMIZE", None)
+            if hs != "random" and int(hs) % 4 == 3:
+                env["PYTHONOPTIMIZE"] = "1"  # every fourth interpreter strips asserts
             env.pop("LOGLEVEL", None)
             env.pop("VERIF_KEEP_HASHSEED", None)
             env.pop("VERIF_C14_ORDER", None)
